@@ -16,6 +16,8 @@ def solver_cmds(path, cap):
 
 def _classify(out, err):
     txt = (out or "") + "\n" + (err or "")
+    # asking for values after an unsat answer is not an error of the query
+    txt = "\n".join(l for l in txt.splitlines() if not ("model is not available" in l or "Cannot get value" in l or "cannot get value" in l.lower()))
     if "(error" in txt:
         return "error"
     for l in (out or "").splitlines():
@@ -83,7 +85,8 @@ def parse_model(txt):
 
 
 class E1:
-    def __init__(self, pid, tier, seed, cap, symlift, tag="e1", max_m_bits=26, twin_every=1, cross_every=16):
+    def __init__(self, pid, tier, seed, cap, symlift, tag="e1", max_m_bits=26, twin_every=1, cross_every=16, taint=False):
+        self.taint = taint
         self.pid, self.tier, self.seed, self.cap = pid, tier, int(seed), cap
         self.symlift = symlift
         self.wd = os.path.join(C.WORK, f"{pid}-{tier}-{tag}")
@@ -204,6 +207,8 @@ class E1:
                         pass
                 else:
                     self.follow_up(spec, q, qr, g, inputs)
+                if self.taint and q.get("taint_file"):
+                    self.taint_query(spec, q, qr, inputs)
             rec["queries"].append(qr)
         # vacuity twin
         if first_file_q is not None and self.twin_every and idx % self.twin_every == 0:
@@ -270,6 +275,37 @@ class E1:
         else:
             self._inc(f"{spec}/{q['name']}: solver model does not reproduce natively ({rep})")
 
+    def taint_query(self, spec, q, qr, inputs):
+        """NaN-taint semantics: can an output be (syntactically) influenced by anything but its own chunk?"""
+        r = solve(q["taint_file"], self.cap)
+        qr["taint"] = {"verdict": r["verdict"], "secs": r["secs"], "vars": q.get("taint_vars")}
+        if r["verdict"] == "unsat":
+            try:
+                os.remove(q["taint_file"])
+            except OSError:
+                pass
+            return
+        if r["verdict"] != "sat":
+            self._inc(f"{spec}/{q['name']}: taint query {r['verdict']}")
+            return
+        tainted = [inputs[int(i)] for i, v in re.findall(r"\(t(\d+)\s+(true|false)\)", r["model_text"]) if v == "true" and int(i) < len(inputs)]
+        wfile = os.path.join(self.wd, "t_" + re.sub(r"[^A-Za-z0-9]", "_", spec + q["name"])[:150] + ".txt")
+        with open(wfile, "w") as fh:
+            fh.write("\n".join(tainted) + "\n")
+        rc, out, err = C.sh([self.symlift, "nanreplay", "--witness", wfile, "--query", q["name"], spec], timeout=3600)
+        try:
+            rep = json.loads(out.strip().splitlines()[-1])
+        except Exception:
+            rep = {"status": "replay-crash"}
+        qr["taint"]["tainted_inputs"] = tainted[:20]
+        qr["taint"]["replay"] = rep
+        if rep.get("status") == "ok" and rep.get("non_finite_outputs", 0) > 0:
+            qr["taint"]["verdict"] = "violated"
+            self.report_violation(spec, q["name"] + " [taint]", f"an output uses a value that is not from its own chunk: NaN in {tainted[:6]} makes {rep.get('first')} non-finite although its own chunk is finite",
+                                  {"tainted_inputs": tainted, "replay": rep, "smt_file": q["taint_file"]})
+        else:
+            self._inc(f"{spec}/{q['name']}: taint model does not reproduce natively ({rep})")
+
     def _inc(self, msg):
         with self.lock:
             self.inconclusive.append(msg)
@@ -291,7 +327,7 @@ class E1:
         return self.summary()
 
     def summary(self):
-        s = dict(specs=len(self.records), queries=0, decided_unsat=0, via_basis=0, dedup=0, empty=0, violated=0, undecided=0,
+        s = dict(taint_queries=0, taint_unsat=0, specs=len(self.records), queries=0, decided_unsat=0, via_basis=0, dedup=0, empty=0, violated=0, undecided=0,
                  outside=[], solver_s={"z3": 0.0, "cvc5": 0.0}, twins=0, twins_sat=0, cross_checked=0, cross_agree=0,
                  nodes=0, vars_max=0, wins={"z3": 0, "cvc5": 0})
         for r in self.records:
@@ -328,5 +364,8 @@ class E1:
                     vs = {vv for vv, _ in q["by_solver"].values()}
                     s["cross_agree"] += (len(vs) == 1 and vs <= {"sat", "unsat"})
                 s["vars_max"] = max(s["vars_max"], q.get("vars", 0))
+                if "taint" in q:
+                    s["taint_queries"] = s.get("taint_queries", 0) + 1
+                    s["taint_unsat"] = s.get("taint_unsat", 0) + (q["taint"]["verdict"] == "unsat")
         s["solver_s"] = {k: round(v, 1) for k, v in s["solver_s"].items()}
         return s
